@@ -487,7 +487,7 @@ func main() {
 			c10Gen(c)
 			// frontier clause at pipeline level: a kafka-like input (UseSpread + DisableStreams) on the
 			// real pipeline; monitor = per-source (partition) commit frontier
-			pipedrv.GenFamilies(c, pipedrv.PipeWhich, []pipedrv.Fam{{Stream: "spread-frontier", Opts: pipedrv.FamSpread, N: 40}})
+			pipedrv.GenFamilies(c, pipedrv.PipeWhich, []pipedrv.Fam{{Stream: "spread-frontier", Opts: pipedrv.FamSpread, N: 40}, {Stream: "spread-split", Opts: pipedrv.FamSpreadSplit, N: 20}})
 		},
 		Exec: pipedrv.WrapExec(c10Exec)})
 }
